@@ -1691,3 +1691,42 @@ func ruleR47(c *Ctx) {
 		})
 	}
 }
+
+// ---- R51 ----
+
+func init() {
+	register(&Rule{ID: "R51", Title: "live-parameter: a flag parameter that callers compute is read by the function (a dropped special case leaves it dead)", Min: 3, Run: ruleR51})
+}
+
+func ruleR51(c *Ctx) {
+	p := c.P
+	for _, f := range p.Funcs {
+		if f.Decl == nil || !inEngineScope(f) {
+			continue
+		}
+		in := info(f)
+		for _, fl := range f.Type().Params.List {
+			for _, nm := range fl.Names {
+				if nm.Name == "_" {
+					continue
+				}
+				v, ok := in.Defs[nm].(*types.Var)
+				if !ok {
+					continue
+				}
+				b, ok := v.Type().Underlying().(*types.Basic)
+				if !ok || b.Kind() != types.Bool {
+					continue
+				}
+				used := false
+				ast.Inspect(f.Body, func(m ast.Node) bool {
+					if id, ok := m.(*ast.Ident); ok && in.Uses[id] == types.Object(v) {
+						used = true
+					}
+					return !used
+				})
+				c.Check(used, f, nm, "flag parameter "+nm.Name, "a boolean parameter that callers compute is read by the function: an unread flag means the special case it stands for was dropped while every caller still asks for it", fmt.Sprintf("read in the body: %v", used))
+			}
+		}
+	}
+}
